@@ -3,11 +3,14 @@ package main
 // Engine-level part of hC19: a scripted misbehaving TCP target, and the real provider + gun + engine against it.
 //
 //	eng <gun> <keepalive> <instances> <refused> <iters> <n> {step}*n
-//	step = <beh> <conn> <status> <bodyok> <body> <tok> <pp>
+//	step = <beh> <conn> <status> <bodyok> <body> <tok> <pp> <tmpl>
 //	  beh     shape of the misbehaviour (see respond)            conn/status/bodyok: the abstract response the
 //	  body    hex of the body bytes the server sends, or @<n>     generator claims for it (read by the model only)
 //	  tok     value of the X-Token response header ("-" = none)
 //	  pp      scenario postprocessor of the step: - | h:<hex chain> | j:<0|1> | x:<nodeset|number> | a:<status>:<hex pattern>
+//	  tmpl    scenario request templating: - | e (a header template whose execution fails) |
+//	          u0/u1 (URI path ends in {{.request.r<i-1>.postprocessor.tok}}; 0 = the generator claims that the
+//	          rendered URI does not parse, so prepareRequest fails)
 //
 // gun=http: the uri provider fires request i at /b/<i>; gun=scenario: one scenario whose step i requests /b/<i>,
 // executed <iters> times per run.
@@ -44,6 +47,7 @@ type step struct {
 	body   []byte
 	tok    string
 	pp     string
+	tmpl   string
 	status int
 }
 
@@ -95,7 +99,8 @@ func (t *target) serve(c net.Conn) {
 		_, _ = io.Copy(io.Discard, req.Body)
 		idx := -1
 		if strings.HasPrefix(req.URL.Path, "/b/") {
-			idx, _ = strconv.Atoi(req.URL.Path[3:])
+			seg, _, _ := strings.Cut(req.URL.Path[3:], "/")
+			idx, _ = strconv.Atoi(seg)
 		}
 		t.mu.Lock()
 		t.reqs++
@@ -192,7 +197,7 @@ func respond(c net.Conn, s step) bool {
 		w("zz\r\nhello\r\n0\r\n\r\n")
 		return false
 	case "stall": // nothing for longer than the gun's response-header-timeout, then close
-		time.Sleep(400 * time.Millisecond)
+		time.Sleep(1500 * time.Millisecond)
 		return false
 	}
 	w(head(500, "", 0))
@@ -254,11 +259,23 @@ func scenarioHCL(steps []step) string {
 	for i, s := range steps {
 		name := fmt.Sprintf("r%d", i)
 		names = append(names, fmt.Sprintf("%q", name+"(1)"))
-		fmt.Fprintf(&b, "request %q {\n  method = \"GET\"\n  uri = \"/b/%d\"\n  headers = {\n    Useragent = \"hC19\"\n  }\n  tag = \"t%d\"\n", name, i, i)
+		uri := fmt.Sprintf("/b/%d", i)
+		hdr := "hC19"
+		if strings.HasPrefix(s.tmpl, "u") && i > 0 {
+			uri += fmt.Sprintf("/{{.request.r%d.postprocessor.tok}}", i-1)
+		}
+		if s.tmpl == "e" {
+			hdr = "{{index \"abc\" 9}}"
+		}
+		fmt.Fprintf(&b, "request %q {\n  method = \"GET\"\n  uri = %s\n  headers = {\n    Useragent = %s\n  }\n  tag = \"t%d\"\n", name, hclString(uri), hclString(hdr), i)
 		kind, arg, _ := strings.Cut(s.pp, ":")
 		switch kind {
 		case "h":
-			fmt.Fprintf(&b, "  postprocessor \"var/header\" {\n    mapping = {\n      tok = %s\n    }\n  }\n", hclString("X-Token|"+string(vh.UnHex(arg))))
+			spec := "X-Token"
+			if chain := string(vh.UnHex(arg)); chain != "" {
+				spec += "|" + chain
+			}
+			fmt.Fprintf(&b, "  postprocessor \"var/header\" {\n    mapping = {\n      tok = %s\n    }\n  }\n", hclString(spec))
 		case "j":
 			b.WriteString("  postprocessor \"var/jsonpath\" {\n    mapping = {\n      v = \"$.a.b\"\n    }\n  }\n")
 		case "x":
@@ -294,6 +311,7 @@ func runEngine(t *tokens) string {
 		s.body = expandBody(t.next())
 		s.tok = t.str()
 		s.pp = t.next()
+		s.tmpl = t.next()
 		steps = append(steps, s)
 	}
 	tg := newTarget()
@@ -334,7 +352,7 @@ func runEngine(t *tokens) string {
 		"gun": map[string]any{
 			"type": guntype, "target": addr,
 			"disable-keep-alives":     !ka,
-			"response-header-timeout": "150ms",
+			"response-header-timeout": "500ms",
 			"dial":                    map[string]any{"timeout": "1s"},
 		},
 		"rps-per-instance": false,
